@@ -107,8 +107,8 @@ def run(ctx):
             v = st["r"]["variant"]
             if v in ("Newtype", "Tuple"):
                 d = ctx.pc_strs(f, blk)
-                one = all(ctx._sat(x, r"Eq\(.*len.*, 1_usize\)=True") for x in d)
-                notone = all(ctx._sat(x, r"Eq\(.*len.*, 1_usize\)=False") for x in d)
+                one = all(ctx._sat(x, r"^len\(.*\)=1$") for x in d)
+                notone = all(ctx._sat(x, ("ne", r"^len\(.*\)$", 1)) for x in d)
                 got[(key, v)] = "len=1" if one else ("len!=1" if notone else "?")
     ctx.ob("C18.S.newtype-iff-one-field", "AsShape impls", "ast::Fields and syn::FieldsUnnamed agree",
            sorted(got.values()) == ["len!=1", "len!=1", "len=1", "len=1"] and all((v == "len=1") == (k[1] == "Newtype") for k, v in got.items()), "%s" % got)
